@@ -152,6 +152,10 @@ def execute(chunk):
                 src = xRFM(**kw)
                 src.fit(X, y, Xv, yv)
                 is_class = src.n_classes_ > 0
+                if p['dseed'] % 2 == 1:
+                    # object history of the source: other public calls on other rows before it is exported
+                    from harness.props import _xcommon as xc_
+                    xc_.perturb_history(src, p['dseed'], X.shape[1])
                 if p['set_temp_after'] is not None:
                     src.split_temperature = p['set_temp_after']
                 p0 = outputs(src, Xt, is_class)
